@@ -41,8 +41,8 @@ pub fn one_case(rep: &Report, idx: usize, case: &CCase, inj: &Injection, reader_
         }
         let obs = ccommon::run_case(&dir, "a", &source, case, inj);
         rep.eval();
-        if obs.exit == Exit::Timeout {
-            rep.inconclusive("watchdog (compress)");
+        if obs.exit == Exit::Timeout || obs.exit.hit_cpu_limit() {
+            rep.inconclusive("watchdog / CPU budget of the case exhausted (compress)");
             return Ok(());
         }
         if !obs.exit.ok() {
@@ -132,8 +132,8 @@ fn finish_cli(
     idx: usize,
     reader_sel: u64,
 ) -> Result<(), String> {
-    if o.exit == Exit::Timeout {
-        rep.inconclusive("watchdog (clone)");
+    if o.exit == Exit::Timeout || o.exit.hit_cpu_limit() {
+        rep.inconclusive("watchdog / CPU budget of the case exhausted (clone)");
         return Ok(());
     }
     if !o.exit.ok() {
